@@ -400,7 +400,7 @@ def expected_retrieve(kernel, script, n, outcomes):
 
 
 @harness(
-    "C21", timeout=(200, 1200), functions=RET_FUNCS, stubs=STUBS, outside=OUTSIDE21,
+    "C21", timeout=(400, 1200), functions=RET_FUNCS, stubs=STUBS, outside=OUTSIDE21,
     shards=tier(_kshards(["get_qr", "move_qr"]),
                 [{"kernel": k, "n": n} for k in ("get_qr", "move_qr") for n in (1, 2, 3)]
                 + [{"kernel": k, "n": n, "full": 1} for k in ("get_qr", "move_qr") for n in (1, 2, 3)]),
